@@ -333,7 +333,31 @@ def r11(ctx):
     ctx.floor(R, 15)
 
 
+def r12(ctx):
+    R = "C02-R12"
+    ctx.rule(R, "source / destination are never swapped on the TCP send path: WriteHalf::send, ReadHalf's RST and connect's SYN call "
+                "send_loopback / send_message with (pair.local, pair.remote) in that order; the loopback Envelope is {src: first, dst: second}")
+    L, Rm = "field:turmoil::net::SocketPair::local", "field:turmoil::net::SocketPair::remote"
+    n = 0
+    for b in sorted(ctx.w.bodies.values(), key=lambda b: b.id):
+        if b.crate != "turmoil" or "net::tcp::stream" not in b.id:
+            continue
+        for bb, t in b.calls(re.compile(r"World::send_message$|tcp::stream::send_loopback$")):
+            off = 1 if t["f"].endswith("send_message") else 0
+            a0 = Slicer(ctx.w).atoms(b, t["args"][off])
+            a1 = Slicer(ctx.w).atoms(b, t["args"][off + 1])
+            n += 1
+            ok = L in a0 and Rm not in a0 and Rm in a1 and L not in a1
+            rootb = b
+            while rootb.parent and rootb.parent in ctx.w.bodies:
+                rootb = ctx.w.bodies[rootb.parent]
+            ctx.inst(R, f"{rootb.id}:{t['f'].rsplit('::', 1)[1]}#{n}", ok, t["s"], "(pair.local, pair.remote)" if ok else
+                     f"`{t['f']}` in `{rootb.id}` is not called with (pair.local, pair.remote): the segment travels in the wrong direction")
+    ctx.floor(R, 5)
+
+
 def run(ctx):
+    r12(ctx)
     r11(ctx)
     r10(ctx)
     from . import C03
